@@ -76,7 +76,7 @@ theorem encodeRtp_ok {max ov : Nat} {cm : Bool} {ctx : Option Nat} {p : RtpShape
     (h : encodeRtp max ov cm ctx p = .ok n e) :
     0 ≤ plainLimit max ov cm ctx ∧ wellFormed p = true ∧ n = rtpMarshalSize p ∧
     (n : Int) ≤ plainLimit max ov cm ctx ∧
-    e = (match ctx with | none => none | some m => some (srtpLen n m)) := by
+    e = ctx.map (srtpLen n) := by
   unfold encodeRtp at h
   by_cases hl : plainLimit max ov cm ctx < 0
   · simp [hl] at h
@@ -92,7 +92,7 @@ theorem encodeRtp_ok {max ov : Nat} {cm : Bool} {ctx : Option Nat} {p : RtpShape
         refine ⟨by omega, hk.1, ?_, ?_, ?_⟩
         · omega
         · omega
-        · simp [h.2]
+        · simp [← h.2]
       | some m =>
         simp at h
         refine ⟨by omega, hk.1, ?_, ?_, ?_⟩
@@ -102,8 +102,7 @@ theorem encodeRtp_ok {max ov : Nat} {cm : Bool} {ctx : Option Nat} {p : RtpShape
 
 theorem encodeRtp_ok_of_fits {max ov : Nat} {cm : Bool} {ctx : Option Nat} {p : RtpShape}
     (hw : wellFormed p = true) (hf : (rtpMarshalSize p : Int) ≤ plainLimit max ov cm ctx) :
-    encodeRtp max ov cm ctx p = .ok (rtpMarshalSize p)
-      (match ctx with | none => none | some m => some (srtpLen (rtpMarshalSize p) m)) := by
+    encodeRtp max ov cm ctx p = .ok (rtpMarshalSize p) (ctx.map (srtpLen (rtpMarshalSize p))) := by
   unfold encodeRtp
   have hl : ¬ plainLimit max ov cm ctx < 0 := by omega
   have hm : marshalTo p (plainLimit max ov cm ctx).toNat = some (rtpMarshalSize p) :=
@@ -146,7 +145,7 @@ def rtcpEncryptable (ver2 : Bool) (len : Nat) : Bool := !(len < 4 || !ver2 || le
 theorem encodeRtcp_ok {max ov : Nat} {cm : Bool} {ctx : Option Nat} {ver2 : Bool} {len n : Nat} {e : Option Nat}
     (h : encodeRtcp max ov cm ctx ver2 len = .ok n e) :
     n = len ∧ (len : Int) ≤ plainLimit max ov cm ctx ∧
-    e = (match ctx with | none => none | some m => some (srtcpLen len m)) ∧
+    e = ctx.map (srtcpLen len) ∧
     (ctx ≠ none → rtcpEncryptable ver2 len = true) := by
   unfold encodeRtcp at h
   by_cases hl : (len : Int) > plainLimit max ov cm ctx
@@ -155,7 +154,7 @@ theorem encodeRtcp_ok {max ov : Nat} {cm : Bool} {ctx : Option Nat} {ver2 : Bool
     cases ctx with
     | none =>
       simp at h
-      exact ⟨h.1.symm, by omega, by simp [h.2], by simp⟩
+      exact ⟨h.1.symm, by omega, by simp [← h.2], by simp⟩
     | some m =>
       by_cases hb : (len < 4 || !ver2 || len < srtcpHeaderSize) = true
       · simp [hb] at h
@@ -175,8 +174,7 @@ theorem encodeRtcp_err_of_oversize {max ov : Nat} {cm : Bool} {ctx : Option Nat}
 
 theorem encodeRtcp_ok_of_fits {max ov : Nat} {cm : Bool} {ctx : Option Nat} {ver2 : Bool} {len : Nat}
     (hf : (len : Int) ≤ plainLimit max ov cm ctx) (he : ctx ≠ none → rtcpEncryptable ver2 len = true) :
-    encodeRtcp max ov cm ctx ver2 len = .ok len
-      (match ctx with | none => none | some m => some (srtcpLen len m)) := by
+    encodeRtcp max ov cm ctx ver2 len = .ok len (ctx.map (srtcpLen len)) := by
   unfold encodeRtcp
   have hl : ¬ (len : Int) > plainLimit max ov cm ctx := by omega
   simp only [hl, if_false]
